@@ -40,6 +40,8 @@ def r_self(sig, body, arg):
     n += c
     body, c = _sub(r"\bSelf::(\w+)\(", r"\1(", body)  # associated fn of the trait -> free fn
     n += c
+    body, c = _sub(r"\bSelf(?=\s*\{)", ty.split("<")[0], body)  # struct literal: no generic arguments
+    n += c
     body, c = _sub(r"\bSelf\b", ty, body)
     n += c
     return sig, body, n
@@ -280,6 +282,9 @@ def _stmt_start(body, pos):
         elif ch in "([":
             depth -= 1
         elif ch in ";{}" and depth <= 0:
+            if ch == "{" and re.match(r"\s*\w+\s*(:(?!:)|,|\})", body[k + 1:]):
+                k -= 1  # the brace of a struct literal: the statement started earlier
+                continue
             break
         k -= 1
     k += 1
@@ -452,7 +457,10 @@ def r_self_output(sig, body, arg):
     """R1: `Self::Output` -> the concrete output type name."""
     ty = arg or "Polynomial"
     sig, a = _sub(r"\bSelf::Output\b", ty, sig)
+    base = ty.split("<")[0]
+    body, b0 = _sub(r"\bSelf::Output(?=\s*\{)", base, body)  # struct literal: no generic arguments
     body, b = _sub(r"\bSelf::Output\b", ty, body)
+    b += b0
     return sig, body, a + b
 
 
